@@ -151,6 +151,11 @@ func makePlaintextRedirects(allConfigs []*SiteConfig) []*SiteConfig {
 	httpPort := strconv.Itoa(certmagic.HTTPPort)
 	httpsPort := strconv.Itoa(certmagic.HTTPSPort)
 	for i, cfg := range allConfigs {
+		// explicitly-HTTP sites (which may share a block containing tls)
+		// get TLS disabled by MakeServers; there is nothing to redirect to
+		if cfg.Addr.Port == httpPort || cfg.Addr.Scheme == "http" {
+			continue
+		}
 		if cfg.TLS.Enabled &&
 			!cfg.TLS.NoRedirect &&
 			!hostHasOtherPort(allConfigs, i, httpPort) &&
